@@ -1331,7 +1331,7 @@ func (f *frame) localKey(a *ssa.Alloc) string {
 
 func (f *frame) callModifies(cc *ssa.CallCommon, keys *modSet, seen map[*ssa.Function]bool, depth int, top bool) bool {
 	if cc.IsInvoke() {
-		return true
+		return !f.e.pureMethod(f.pkg, cc.Method.Name())
 	}
 	switch callee := cc.Value.(type) {
 	case *ssa.Builtin:
@@ -1361,6 +1361,12 @@ func (f *frame) funcModifies(callee *ssa.Function, args []ssa.Value, keys *modSe
 		mls, err := parseModifies(fc)
 		if err != nil {
 			return true
+		}
+		for _, ef := range fc.Effects {
+			keys.add(f.e.regKey("LOG:"+ef.Label, f.e.Sorts.SeqOf(f.e.Sorts.Str)), nil)
+		}
+		for _, ln := range modifiedLogs(fc) {
+			keys.add(f.e.regKey("LOG:"+ln, f.e.Sorts.SeqOf(f.e.Sorts.Str)), nil)
 		}
 		for _, ml := range mls {
 			ks, err := f.e.modKeys(callee, ml)
